@@ -198,7 +198,7 @@ namespace Givaro
     ModularBalanced<double>::init(Element& x, const Integer& y) const
     {
         x = static_cast<Element>(y % _p);
-        NORMALISE_HI(x);
+        NORMALISE(x);
         return x;
     }
 
